@@ -318,7 +318,24 @@ class C20(Prop):
             'schedule with a pause while a cycle was under way or a stop with events still pending')
     trusted = ['pre-emption inside one Python-level call is not modelled; threading.Event / Thread.join by their documented behaviour']
 
+    def extra_build(self):
+        """the tie needs to tell the runner's pause flag from its stop flag (by what the public `pause()` and `stop()`
+        do to the `threading.Event`s a runner creates): when it cannot, the correspondence is broken"""
+        try:
+            run_schedule({'kind': 'runner', 'execute_all': False, 'clients': [[['start'], ['stop']]], 'limit': 50},
+                         __import__('random').Random(1))
+        except engine.MachineryError as e:
+            return False, str(e)
+        return True, ''
+
     def gen_case(self, rnd, tier):
+        try:
+            return self._gen_case(rnd, tier)
+        except engine.MachineryError as e:
+            return Case({'kind': 'runner', 'skip': str(e)[:300], 'execute_all': False, 'clients': [], 'limit': 1}, None,
+                        model_ok=False)
+
+    def _gen_case(self, rnd, tier):
         nclients = 1 if rnd.random() < 0.75 else 2
         clients = []
         for c in range(nclients):
@@ -349,11 +366,19 @@ class C20(Prop):
         return None
 
     def run_impl(self, case):
-        obs, aux = run_schedule(case.payload)
+        if case.payload.get('skip'):
+            return {'skipped': case.payload['skip']}
+        try:
+            obs, aux = run_schedule(case.payload)
+        except engine.MachineryError as e:
+            case.model_ok = False
+            return {'skipped': str(e)[:300]}
         case.aux = aux
         return obs
 
     def normalize(self, obs):
+        if 'skipped' in obs:
+            return {}
         keys = ('executed', 'reported', 'before_run', 'after_run', 'cycles', 'unpaused', 'stop', 'final', 'enabled')
         o = {k: obs[k] for k in keys}
         if 'pc' in obs:
@@ -363,6 +388,9 @@ class C20(Prop):
         return o
 
     def oracle(self, case, obs, res):
+        if 'skipped' in obs:
+            res.features.add('tie-broken')
+            return
         p = case.payload
         aux = case.aux
         trace = aux['trace']
